@@ -196,21 +196,30 @@ Definition hexval (c : N) : option N :=
   else if (65 <=? c) && (c <=? 70) then Some (c - 55)
   else None.
 
+Definition hex4val (h : bytes) : option N :=
+  match h with
+  | [c0; c1; c2; c3] =>
+      match hexval c0, hexval c1, hexval c2, hexval c3 with
+      | Some h0, Some h1, Some h2, Some h3 => Some (((h0 * 16 + h1) * 16 + h2) * 16 + h3)
+      | _, _, _, _ => None
+      end
+  | _ => None
+  end.
+
 Definition decode_pktline (b : bytes) : option (bytes * bytes) :=
   match take 4 b with
-  | Some ([c0; c1; c2; c3], b1) =>
-      match hexval c0, hexval c1, hexval c2, hexval c3 with
-      | Some h0, Some h1, Some h2, Some h3 =>
-          let u := ((h0 * 16 + h1) * 16 + h2) * 16 + h3 in
+  | None => None
+  | Some (h, b1) =>
+      match hex4val h with
+      | None => None
+      | Some u =>
           if u =? 0 then Some ([], b1)
           else
             match take (N.to_nat u) b1 with
             | Some (body, b2) => Some (firstn (N.to_nat u - 1) body, b2)   (* b[:u-1], last byte unchecked *)
             | None => None
             end
-      | _, _, _, _ => None
       end
-  | _ => None
   end.
 
 Definition wf_pktline (s : bytes) : Prop := len s <= 65534.
